@@ -58,7 +58,9 @@ Proof.
     + intros a Ha'. apply Ha in Ha'. subst. reflexivity.
     + intros c Hc'. apply Hc in Hc'. subst. reflexivity.
     + intros c Hs'. apply Hs in Hs'. subst. reflexivity.
-  - destruct (ro o) eqn:R; simpl; auto.
+  - (* MMulNum: with derivatives the cache is cleared (insert_derivs), without them as MAddNum *)
+    destruct (ro o) eqn:R; simpl; auto.
+    destruct (derivs o) as [|d0 ds] eqn:D; simpl; [|apply coh_empty; reflexivity].
     coh_inv H. unfold coh, new_values; simpl. repeat split; try (intros x Hx; discriminate).
     + intros a Ha'. apply Ha in Ha'. subst. reflexivity.
     + intros c Hc'. apply Hc in Hc'. subst. reflexivity.
@@ -116,7 +118,7 @@ Proof.
       split; try reflexivity; repeat split; reflexivity.
   - destruct r2; simpl; split; try reflexivity; repeat split; reflexivity.
   - destruct r2; simpl; split; try reflexivity; repeat split; reflexivity.
-  - destruct r2; simpl; split; try reflexivity; repeat split; reflexivity.
+  - (* MMulNum *) destruct r2; simpl; [|destruct d2; simpl]; split; try reflexivity; repeat split; reflexivity.
   - destruct r2; simpl; [split; [reflexivity | repeat split; reflexivity]|].
     destruct (negb _); simpl; split; try reflexivity; repeat split; reflexivity.
   - destruct (negb _); simpl; split; try reflexivity; repeat split; reflexivity.
